@@ -16,6 +16,7 @@ static mut IMG_LEN: usize = 0;
 /// 0 = library not called; 1 = records reproduce the image; >= 2 = failure code
 static mut VERDICT: u8 = 0;
 static mut BIG: bool = false;
+static mut BIG_TAIL: [u8; 64] = [0; 64];
 
 pub const V_OK: u8 = 1;
 pub const V_DATA_AFTER_EOF: u8 = 2;
@@ -107,10 +108,19 @@ fn read_records_big(records: &[ihex::Record]) -> u8 {
                 if addr != next {
                     return V_OUT_OF_ORDER;
                 }
-                next += value.len() as u64;
-                if next > len {
+                if next + value.len() as u64 > len {
                     return V_OUTSIDE;
                 }
+                let mut j = 0;
+                while j < value.len() {
+                    let a = next + j as u64;
+                    let want = if a + 24 >= len { unsafe { BIG_TAIL[(a + 24 - len) as usize] } } else { 0 };
+                    if value[j] != want {
+                        return V_WRONG_BYTE;
+                    }
+                    j += 1;
+                }
+                next += value.len() as u64;
             }
             ihex::Record::EndOfFile => {
                 if eof || i != n - 1 {
@@ -259,19 +269,28 @@ fn hex_len<S: Src>(s: &mut S, len: usize) {
     core::mem::forget(r);
 }
 
-/// Zero image with length in lo..=hi around a 64 KiB boundary (thorough tier).
-pub fn hex_big<S: Src>(s: &mut S, lo: u32, hi: u32) {
+/// Large image of one *concrete* length `len` (so that the record loop has a concrete trip
+/// count and every record index 0..len/16 is executed): zero everywhere except the last 24
+/// bytes, which are symbolic.  Decides the offset arithmetic of every record index up to
+/// len/16 (e.g. 257 for the 4 KiB window, 4098 for the 64 KiB window) and that the bytes of the
+/// last records are the image's.
+pub fn hex_big<S: Src>(s: &mut S, len: usize) {
     s.role(H_C07_HEX, 1);
-    let len = s.u32();
-    s.assume(len >= lo && len <= hi);
-    let img: Vec<u8> = vec![0u8; len as usize];
+    let tail: [u8; 64] = s.arr64();
+    let mut img: Vec<u8> = vec![0u8; len];
+    let mut i = 0;
+    while i < 24 {
+        img[len - 24 + i] = tail[i];
+        i += 1;
+    }
     unsafe {
-        IMG_LEN = len as usize;
+        IMG_LEN = len;
         VERDICT = 0;
         BIG = true;
+        BIG_TAIL = tail;
     }
     let r = avra_lib::writer::verif_generate_hex_from_segment(&img[..]);
-    cov!(r.is_ok() && len == hi, "!longest image of the window written");
+    cov!(r.is_ok(), "!writer returned a file");
     chk!(s, r.is_ok(), "C07: writer failed on an image it must be able to write");
     #[cfg(kani)]
     {
